@@ -244,6 +244,8 @@ def select_cases(draw):
 
 
 def ref_bic(loss, N, K, c0, d0):
+    if loss <= 0:
+        return -math.inf  # an exact fit: nothing can beat it
     nll = -N / 2.0 * (math.log(2 * math.pi) + math.log(loss / N) + 1)
     return (-2 * nll + c0 * K * math.log(N) ** d0) / N
 
@@ -254,7 +256,7 @@ def judge_select(c, rec):
 
     df = synth.daily_frame(n=c["n"], tz=c["tz"], start_day=c["start_day"], noise_seed=c["seed"], usage=c["usage"],
                            noise=c["noise"], weekend_shift=c["weekend_shift"], season_shift=c["season_shift"],
-                           weather={"south": c["south"]})
+                           weather={"south": c["south"]}, additive=c.get("additive", 1.0))
     prof = c["profile"]
     if prof == "billing":
         # monthly bills: aggregate the daily series to ~30-day reads
@@ -320,6 +322,8 @@ def judge_select(c, rec):
             crit[combo] = (wrmse, TSS, N, len(comps))
         vals = {}
         for combo, (wrmse, TSS, N, K) in crit.items():
+            if not base:  # a meter that is constant throughout: every candidate is exact, nothing to rank
+                break
             loss = wrmse / base
             ct = str(ss.criteria.value if hasattr(ss.criteria, "value") else ss.criteria).lower()
             if ct == "bic":
@@ -330,7 +334,7 @@ def judge_select(c, rec):
         if finite:
             mn = min(finite.values())
             first = next(k for k in cands if k in finite and finite[k] == mn)
-            tol = 1e-9 * max(1.0, abs(mn))
+            tol = 1e-9 * max(1.0, abs(mn)) if math.isfinite(mn) else 0.0
             if vals.get(best, float("inf")) > mn + tol:
                 rec.violation(key + "/best-not-minimal", c, "best %r has criterion %r, candidate %r has %r" % (best, vals.get(best), first, mn))
             elif best != first and abs(vals[best] - mn) <= 0 and cands.index(best) > cands.index(first):
@@ -480,6 +484,19 @@ def shards(tier, seed):
         reuse.append(cse)
     out.append({"sub": "list", "cases": reuse[:2]})
     out.append({"sub": "list", "cases": reuse[2:]})
+    # timer loads: usage that is exactly constant within calendar cells (no noise at all) - a split that fits exactly has the lowest
+    # possible criterion and must be the one chosen
+    exact = []
+    for j, (prof, ws, ss) in enumerate([("legacy_dev", 0.75, 0.0), ("current", -0.75, 0.0), ("legacy_dev", 0.0, 0.5), ("legacy", 0.0, 0.0)]):
+        cse = {"kind": "select", "profile": prof, "seed": 2000 + j + seed % 1000, "tz": "America/Chicago", "n": 365, "start_day": 0,
+               "weekend_shift": ws, "season_shift": ss, "noise": 0.0, "additive": 0.0, "usage": {"base": 24.0, "hs": 0.0, "hb": 50.0, "cs": 0.0, "cb": 70.0},
+               "south": False, "prefit": None}
+        if prof == "legacy_dev":
+            cse["criteria"] = "bic"
+            cse["flags"] = [True, True, True, True]
+        exact.append(cse)
+    out.append({"sub": "list", "cases": exact[:2]})
+    out.append({"sub": "list", "cases": exact[2:]})
     ch = candhist_cases(seed)
     for cse in (ch[:2] if q else ch):
         out.append({"sub": "list", "cases": [cse]})
